@@ -163,7 +163,7 @@ def run(ctx):
         from ..repotests import run_repo_tests
 
         run_repo_tests(ctx, ("marker",), before_each=lambda: setattr(ctx, 'env_budget', ctx.env_cap_top))
-    run_trees(ctx, _run_tree(ctx), n_random=700 if ctx.tier == "quick" else 15000, max_atoms=7 if ctx.tier == "quick" else 9,
+    run_trees(ctx, _run_tree(ctx), n_random=450 if ctx.tier == "quick" else 15000, max_atoms=7 if ctx.tier == "quick" else 9,
               unary_p=0.6, small_frac=0.4 if ctx.tier == "quick" else 1.0)
 
 
